@@ -319,6 +319,55 @@ pub fn plan(prop: &str) -> Vec<Item> {
         }
         _ => {}
     }
+    // private scheduler (`priv`=1): the queues belong to a `Scheduler::new()` of their own while the global scheduler has no
+    // thread at all, so anything that reaches for the global scheduler instead of the queue's own one strands the work (seed C13-j)
+    {
+        let picks: &[&str] = match prop {
+            "C13" => &["suspend"],
+            "C03" => &["f2_dormant_race", "stale_entry", "try_paths", "wake_ctx", "fd_result"],
+            "C04" => &["sync_states", "f3_sync_sync", "f3_nested_sync", "sync_wipe", "nested_wait"],
+            "C06" => &["wake_ctx", "wake_stale_entry"],
+            "C07" => &["fd_result", "fd_two", "repoll"],
+            "C08" => &["fs_cancel", "fs_nested"],
+            "C09" => &["try_paths"],
+            "C10" => &["indep", "indep_stale", "indep_race"],
+            "C15" => &["panic_contain"],
+            "C17" => &["pool_census"],
+            _ => &[],
+        };
+        let mut extra = vec![];
+        let mut seen = std::collections::BTreeSet::new();
+        for i in plan_base(prop) {
+            if !picks.contains(&i.scenario) || i.cfg.opt("raw", 1) == 0 || i.quick.is_none() {
+                continue;
+            }
+            if prop != "C13" && (i.cfg.opt("pool", 0) > (if prop == "C10" { 3 } else { 1 }) || i.cfg.opt("inl", 0) != 0 || i.cfg.opt("selfwake", 0) != 0) {
+                continue;
+            }
+            let cfg = format!("{},priv=1", i.cfg.to_string());
+            if !seen.insert((i.scenario, cfg.clone())) {
+                continue;
+            }
+            let qb = if prop == "C13" { i.quick.map(|b| b.min(2)) } else { i.quick.map(|b| b.min(1)) };
+            let mut j = it(i.scenario, &cfg, qb, i.thorough.min(2));
+            j.small = i.small;
+            extra.push(j);
+        }
+        v.extend(extra);
+        if prop == "C13" {
+            // `late`=1: the task awaiting the suspend future is the runner (no pool thread yet); the pool appears during the suspension
+            for pool in [1, 2] {
+                for resume in [0, 1] {
+                    for sync in [0, 1] {
+                        let b = if pool == 1 { 2 } else { 1 };
+                        v.push(it("suspend", &format!("pool={},resume={},sync={},late=1,priv=1", pool, resume, sync), Some(b), b + 1));
+                        v.push(it("suspend", &format!("pool={},resume={},sync={},late=1,api=1,priv=1", pool, resume, sync), Some(b), b + 1));
+                    }
+                }
+                v.push(it("suspend", &format!("pool={},resume=0,sync=1,late=1,api=1", pool), Some(1), 2));
+            }
+        }
+    }
     // spurious wake-ups (`spur`=1): one `thread::park` or `Condvar::wait` call of the subject may return although nobody
     // woke it (std allows both), at any explored moment; a spurious return costs one deviation like a preemption does
     {
